@@ -212,12 +212,14 @@ Section Fits.
     - destruct s as [| | | | | | | | |sn ss|]; simpl in Hb; try discriminate.
       destruct g as [| | | | | | | | | |gs|]; simpl in Hg; try discriminate.
       destruct r; inversion Hk; reflexivity.
-    - destruct r; try discriminate. inversion Hk.
-      destruct s as [| | | | | | | | |sn ss|]; simpl in Hb; try discriminate.
-      destruct g as [| | | | | | | | | |gs|]; simpl in Hg; try discriminate.
-      apply andb_prop in Hb. destruct Hb as [Hb _]. apply andb3 in Hb. destruct Hb as [Hb _].
-      destruct (ok_members_inv _ ms ss gs Hb Hg) as [pre [m [post [spre [sn' [ms1 [spost [v [rest [E1 [E2 [E3 [El _]]]]]]]]]]]]].
-      subst. rewrite denote_union_unfold. rewrite den_union_at by assumption. reflexivity.
+    - destruct r; try discriminate.
+      + inversion Hk.
+        destruct s as [| | | | | | | | |sn ss|]; simpl in Hb; try discriminate.
+        destruct g as [| | | | | | | | | |gs|]; simpl in Hg; try discriminate.
+        apply andb_prop in Hb. destruct Hb as [Hb _]. apply andb3 in Hb. destruct Hb as [Hb _].
+        destruct (ok_members_inv _ ms ss gs Hb Hg) as [pre [m [post [spre [sn' [ms1 [spost [v [rest [E1 [E2 [E3 [El _]]]]]]]]]]]]].
+        subst. rewrite denote_union_unfold. rewrite den_union_at by assumption. reflexivity.
+      + exfalso. destruct s; simpl in Hb; try discriminate. rewrite andb_false_r in Hb. discriminate.
     - destruct s; simpl in Hb; try discriminate.
       destruct g as [| | |x| | | | | | | |]; simpl in Hg; try discriminate.
       destruct (enum_by_name x ms) as [[sr ir]|] eqn:E; try discriminate.
@@ -334,6 +336,7 @@ Section Fits.
             apply (nodup_app_fresh fst pre m post); [rewrite <- E1; exact Hnd | exact Hx].
           - unfold mkey. rewrite Hkm. apply bytes_eqb_refl. }
         destruct (denote LRepr (snd m) v); try congruence; exact Hw.
+      + discriminate Hkwf.
     - (* enum *)
       destruct s; simpl in Hb; try discriminate.
       apply andb_prop in Hb. destruct Hb as [Hb Hsmall].
